@@ -174,7 +174,7 @@ func evalTape(p core.Property, t []uint32, fresh bool, trace bool) (*oneOut, err
 	os.WriteFile(tf, tb, 0o644)
 	cmd := exec.Command(os.Args[0], "-role", "one", "-prop", *propID, "-tier", *tier, "-tape", tf, "-out", of,
 		"-repo", *repoD, "-orig", *origD, "-scratch", dir, "-verif", *verifD)
-	cmd.Env = append(os.Environ(), "GORACE=halt_on_error=0 log_path="+filepath.Join(dir, "race"))
+	cmd.Env = append(os.Environ(), "GORACE=halt_on_error=0 exitcode=0 suppress_equal_stacks=0 suppress_equal_addresses=0 log_path="+filepath.Join(dir, "race"))
 	cmd.Stderr = nil
 	if err := runTimeout(cmd, 120*time.Second); err != nil {
 		return nil, err
@@ -244,7 +244,7 @@ func driver() {
 			"-workers", fmt.Sprint(W), "-w", fmt.Sprint(w), "-runs", fmt.Sprint(n), "-maxsec", fmt.Sprint(capSec),
 			"-out", outs[w], "-repo", *repoD, "-orig", *origD, "-scratch", *scratch, "-verif", *verifD}
 		c := exec.Command(os.Args[0], args...)
-		c.Env = append(os.Environ(), "GORACE=halt_on_error=0 log_path="+filepath.Join(*scratch, fmt.Sprintf("race.%d", w)), "GOMAXPROCS=2")
+		c.Env = append(os.Environ(), "GORACE=halt_on_error=0 exitcode=0 suppress_equal_stacks=0 suppress_equal_addresses=0 log_path="+filepath.Join(*scratch, fmt.Sprintf("race.%d", w)), "GOMAXPROCS=2")
 		ef, _ := os.Create(filepath.Join(*scratch, fmt.Sprintf("worker.%d.stderr", w)))
 		c.Stderr = ef
 		c.Stdout = ef
@@ -303,15 +303,14 @@ func driver() {
 			continue
 		}
 		// minimise
+		// shrinking evaluates in-process (the race detector is told not to suppress
+		// repeated reports); the minimised tape is then verified in a fresh process
 		fresh := report.RaceBuild
 		orig := rec.Tape
 		min, evals := orig, 0
 		budget, dur := 400, 40*time.Second
-		if fresh {
-			budget, dur = 150, 90*time.Second
-		}
 		min, evals = tape.Shrink(orig, nil, func(c []uint32) (bool, []uint32) {
-			o, err := evalTape(p, c, fresh, false)
+			o, err := evalTape(p, c, false, false)
 			if err != nil || o.Infra != "" {
 				return false, nil
 			}
